@@ -8,7 +8,7 @@ EXTENDS WSDialMC
 
 CONSTANTS Parts,   \* subset of {"reply", "url", "hdr", "hist", "body", "urlp"}
           MaxDev,  \* maximal number of deviations from the good reply / plain URL (99 = full product)
-          BodyLens, BodyRBufs, BodySegs, BodyKinds, BodyURLs   \* part "body" (see below)
+          BodyLens, BodyRBufs, BodySegs, BodyKinds, BodyURLs, BodyClx   \* part "body" (see below)
 
 Statuses == {101, 100, 200, 301, 400, 403, 410, 500}
 UpgVals  == { << << "websocket" >> >>, << << "WebSocket" >> >>, << << "foo", "websocket" >> >>,
@@ -89,9 +89,13 @@ NegOf(k, b, cl, sg) ==
                 [] OTHER -> StdReply(101, << << "websocket" >> >>, << << "Upgrade" >> >>, "other", b, cl, "none")
   IN [base EXCEPT !.seg = SegOf(sg)]
 BodyCfgs == { [BaseCfg EXCEPT !.rbuf = b] : b \in BodyRBufs }
+(* ... and bodies cut short by the server: Content-Length declares more (a few bytes, 2^28, 2^63-1) than the blen   *)
+(* bytes that arrive before the connection ends; the caller still gets the first min(1024, blen) bytes.           *)
 BodyDials ==
   { << D1([PlainURL EXCEPT !.scheme = s], << >>, NegOf(k, b, cl, sg)) >> :
       s \in BodyURLs, k \in BodyKinds, b \in BodyLens, cl \in BOOLEAN, sg \in BodySegs }
+  \cup { << D1([PlainURL EXCEPT !.scheme = s], << >>, [NegOf(k, b, TRUE, sg) EXCEPT !.clx = x]) >> :
+            s \in BodyURLs, k \in BodyKinds, b \in BodyLens, sg \in {"one", "hdr|body", "mid"}, x \in BodyClx }
 
 (* Part "urlp": userinfo and foreign schemes with a proxy configured: refused without consulting the proxy. *)
 ProxyCfgs == { [BaseCfg EXCEPT !.proxy = p, !.pport = IF p = "socks5" THEN "1080" ELSE "3128"] : p \in {"http", "socks5"} }
